@@ -84,6 +84,14 @@ def universe():
             jobs.append((f, cfg, ""))
     for name in sorted(designs.all_designs()):
         jobs.append(("gen:" + name, "use_indent", ""))
+    # one rule group switched off at a time: every generated design, and a slice of the corpus
+    from bounded import configs as _cfgs
+
+    for g in _cfgs.GROUPS:
+        for name in sorted(designs.all_designs()):
+            jobs.append(("gen:" + name, "nogrp:" + g, ""))
+    for i, f in enumerate(files[::7]):
+        jobs.append((f, "nogrp:" + _cfgs.GROUPS[i % len(_cfgs.GROUPS)], ""))
     # the configurations the documentation shows (every YAML/JSON configuration block of docs/*.rst): all generated designs,
     # and a fixed slice of the corpus
     from bounded import docconfigs
